@@ -6,6 +6,7 @@ import TexelVerif.Drv.NN
 import TexelVerif.Drv.Time
 import TexelVerif.Drv.Book
 import TexelVerif.Drv.BookBuild
+import TexelVerif.Drv.Csp
 /-! Line-protocol driver: one operation per stdin line, one canonical reply line.
     Imports model files only (no proofs, no Mathlib), so it links as a `lean_exe`. -/
 
@@ -27,6 +28,8 @@ def dispatch (st : DrvState) (line : String) : DrvState × String :=
   | "pgbook" :: args => let (b, o) := Drv.Book.step st.pgbook args; ({ st with pgbook := b }, o)
   | "book" :: args => let (t, o) := Drv.BookBuild.step st.book args; ({ st with book := t }, o)
   | "bookrec" :: args => (st, Drv.BookBuild.stepRec args)
+  | "csp" :: args => (st, Drv.Csp.solveLine args)
+  | "bs" :: args => (st, Drv.Csp.bitset args)
   | _ => (st, "bad-op")
 
 partial def loop (h : IO.FS.Stream) (out : IO.FS.Stream) (st : DrvState) : IO Unit := do
